@@ -523,7 +523,7 @@ O(id='SET_OF_decode_oer.b9', props=['C04', 'C14', 'C15'], kind='bounded', entry=
   defines=['VF_N=9'], unwind=6, cbmc=['--unwindset', 'oer_fetch_length.0:10,oer_fetch_length.1:10,oer_fetch_quantity.0:10,oer_fetch_quantity.1:10,h_SET_OF_decode_oer.0:12,h_SET_OF_decode_oer.1:12,realloc.0:66', '--malloc-may-fail', '--malloc-fail-null', '--memory-leak-check'],
   bound='SET OF stub members; every input of at most 9 octets (a quantity field of up to 8 octets) in an exact-size heap buffer; every allocation may fail', min_props=80, timeout=900, **SFO)
 O(id='SET_OF_decode_oer.chunk2', props=['C05'], kind='bounded', tier='thorough', entry='h_SET_OF_decode_oer_chunked', functions=['SET_OF_decode_oer', 'oer_fetch_quantity', 'asn_set_add'],
-  defines=['VF_N=8'], unwind=6, cbmc=['--unwindset', 'oer_fetch_length.0:10,oer_fetch_length.1:10,oer_fetch_quantity.0:10,oer_fetch_quantity.1:10,h_SET_OF_decode_oer.0:11,h_SET_OF_decode_oer.1:11,realloc.0:66', '--no-malloc-may-fail'], bound='every split point of every input of at most 8 octets (two chunks)', min_props=80, timeout=1800, mem_gb=30, **SFO)
+  defines=['VF_N=8'], unwind=6, cbmc=['--unwindset', 'oer_fetch_length.0:10,oer_fetch_length.1:10,oer_fetch_quantity.0:10,oer_fetch_quantity.1:10,h_SET_OF_decode_oer.0:11,h_SET_OF_decode_oer.1:11,realloc.0:66', '--no-malloc-may-fail'], bound='every split point of every input of at most 8 octets (two chunks)', min_props=80, timeout=1800, mem_gb=24, **SFO)
 
 STUBT = 'member types are harness stubs (primitive TLV with the expected tag and one contents octet, stateless: RC_WMORE with consumed 0 until complete); descriptor laid out by hand in the shape asn1c emits'
 SQB = dict(harness='harness/h_seq_ber.c', units=[SK + 'constr_SEQUENCE.c', SK + 'ber_decoder.c', SK + 'ber_tlv_tag.c', SK + 'ber_tlv_length.c'],
@@ -546,7 +546,7 @@ O(id='SET_OF_decode_ber.b8', props=['C04', 'C14', 'C15'], kind='bounded', entry=
   defines=['VF_N=8'], unwind=5, cbmc=['--unwindset', 'ber_fetch_tag.0:11,ber_fetch_length.0:11,h_SET_OF_decode_ber.0:11,h_SET_OF_decode_ber.1:11,realloc.0:66', '--malloc-may-fail', '--malloc-fail-null', '--memory-leak-check'],
   bound='SET OF stub members; every input of at most 8 octets in an exact-size heap buffer; every allocation may fail', min_props=80, timeout=1800, **SFB)
 O(id='SET_OF_decode_ber.chunk2', props=['C05', 'C03'], kind='bounded', tier='thorough', entry='h_SET_OF_decode_ber_chunked', functions=['SET_OF_decode_ber', 'ber_check_tags', 'ber_fetch_tag', 'ber_fetch_length', 'asn_set_add'],
-  defines=['VF_N=8'], unwind=5, cbmc=['--unwindset', 'ber_fetch_tag.0:11,ber_fetch_length.0:11,h_SET_OF_decode_ber.0:11,h_SET_OF_decode_ber.1:11,realloc.0:66', '--no-malloc-may-fail'], bound='every split point of every input of at most 8 octets (two chunks)', min_props=80, timeout=1800, mem_gb=30, **SFB)
+  defines=['VF_N=8'], unwind=5, cbmc=['--unwindset', 'ber_fetch_tag.0:11,ber_fetch_length.0:11,h_SET_OF_decode_ber.0:11,h_SET_OF_decode_ber.1:11,realloc.0:66', '--no-malloc-may-fail'], bound='every split point of every input of at most 8 octets (two chunks)', min_props=80, timeout=1800, mem_gb=24, **SFB)
 
 SQE = dict(harness='harness/h_seq_enc.c', units=[SK + 'constr_SEQUENCE.c', SK + 'constr_SEQUENCE_oer.c', SK + 'der_encoder.c', SK + 'oer_encoder.c'],
            link=[SK + 'constr_SEQUENCE.c', SK + 'der_encoder.c', SK + 'ber_tlv_tag.c', SK + 'ber_tlv_length.c', SK + 'asn_bit_data.c', SK + 'oer_encoder.c', SK + 'oer_support.c'],
